@@ -17,7 +17,8 @@ from typing import Any, Callable, Optional
 
 VERIF = os.path.dirname(os.path.dirname(os.path.abspath(__file__)))
 REPO = os.environ.get("VERIF_REPO", "/repo")
-EVID = os.path.join(VERIF, "evidence")
+# evidence of runs against a scratch copy (self-tests with VERIF_REPO) must not overwrite the evidence of /repo
+EVID = os.path.join(VERIF, "evidence") if "VERIF_REPO" not in os.environ else "/dev/shm/verif-selftest-evidence"
 REPLAYS = os.path.join(VERIF, "replays")
 KNOWN = os.path.join(VERIF, "known_findings.json")
 NCPU = int(os.environ.get("VERIF_JOBS", "16"))
